@@ -223,3 +223,28 @@ Theorem transform_canon m i p q f path' query' F :
   tp_transform (tp_canon m i p q f) m i path' query' F = Ok (tp_canon m i path' query' F).
 Proof. unfold tp_transform. rewrite set_path_canon. cbn [obind]. rewrite set_query_canon. cbn [obind]. rewrite set_method_canon. cbn [obind].
   rewrite set_method_id_canon. cbn [obind]. apply set_fragment_canon. Qed.
+
+(* the join model of Did/DidParse.v is exactly the function that carries the third-party value along, on every receiver whose DID text is
+   "did:" method ":" id (every value the library builds) *)
+Theorem join_full_eq u seg : u_did u = [100; 105; 100; 58] ++ u_method u ++ [58] ++ u_mid u -> did_url_join_full u seg = did_url_join u seg.
+Proof.
+  intros Ed. unfold did_url_join_full, did_url_join. destruct seg as [|c seg']; [reflexivity|]. destruct (negb _); [reflexivity|].
+  cbv zeta. rewrite assemble_did_canon. cbn [obind]. rewrite set_path_canon. cbn [obind]. rewrite set_query_canon. cbn [obind]. rewrite set_fragment_canon. cbn [obind].
+  destruct (tp_rel_offsets (c :: seg')) as [rc|e|]; cbn [obind]; try reflexivity.
+  destruct (tp_path (c :: seg') rc) as [P|e|]; cbn [obind]; try reflexivity.
+  destruct (tp_query (c :: seg') rc) as [Q|e|]; cbn [obind]; try reflexivity.
+  destruct (tp_fragment (c :: seg') rc) as [F|e|]; cbn [obind]; try reflexivity.
+  set (bp := oapp (u_path u)). set (bq := match u_query u with Some q => Some (strip1 63 q) | None => None end). set (bf := match u_frag u with Some f => Some (strip1 35 f) | None => None end).
+  destruct (canon_accessors (u_method u) (u_mid u) bp bq bf) as [A1 [A2 [A3 [A4 A5]]]]. cbv zeta in A1, A2, A3, A4, A5.
+  rewrite A3, A4, A1, A2. cbn [obind].
+  rewrite transform_canon. cbn [obind].
+  match goal with |- context [tp_canon (u_method u) (u_mid u) ?pp ?qq F] => set (path' := pp); set (query' := qq) end.
+  destruct (canon_accessors (u_method u) (u_mid u) path' query' F) as [B1 [B2 [B3 [B4 B5]]]]. cbv zeta in B1, B2, B3, B4, B5.
+  rewrite B3, B4, B5. cbn [obind].
+  destruct (set_path (Some path')) as [up|e|]; cbn [obind]; try reflexivity.
+  destruct (set_query _) as [uq|e|]; cbn [obind]; try reflexivity.
+  destruct (set_fragment _) as [uf|e|]; cbn [obind]; try reflexivity.
+  rewrite set_path_canon. cbn [obind]. rewrite set_query_canon. cbn [obind]. rewrite set_fragment_canon. cbn [obind].
+  destruct (canon_accessors (u_method u) (u_mid u) [] None None) as [C1 [C2 _]]. cbv zeta in C1, C2. rewrite C1, C2. cbn [obind].
+  destruct (negb _ || negb _); [reflexivity|]. f_equal. f_equal. unfold tp_canon. cbn [t_data optpre']. rewrite Ed, !app_nil_r. reflexivity.
+Qed.
